@@ -63,6 +63,10 @@ type Pump struct {
 	RdbOff  int64
 	RdbSize int64
 
+	limit  int64
+	resume chan struct{}
+	want   []byte // snapshot readers: the snapshot's bytes (computed once)
+
 	mu   sync.Mutex
 	buf  []byte
 	err  error
@@ -71,7 +75,13 @@ type Pump struct {
 }
 
 func StartPump(r syncer.ChannelReader, lin int, x int64) *Pump {
-	p := &Pump{R: r, Lin: lin, X: x, Aof: r.IsAof(), wait: usync.NewWaitCloser(nil)}
+	return StartPumpLimit(r, lin, x, -1)
+}
+
+// StartPumpLimit starts a consumer that stops reading after `limit` bytes (a slow consumer: a target that takes its time to
+// replay a snapshot, a follower on a slow link) until Resume is called; limit < 0: reads as fast as it can.
+func StartPumpLimit(r syncer.ChannelReader, lin int, x int64, limit int64) *Pump {
+	p := &Pump{R: r, Lin: lin, X: x, Aof: r.IsAof(), wait: usync.NewWaitCloser(nil), limit: limit, resume: make(chan struct{})}
 	if !p.Aof {
 		p.RdbOff, p.RdbSize = r.Left(), r.Size()
 	}
@@ -79,9 +89,29 @@ func StartPump(r syncer.ChannelReader, lin int, x int64) *Pump {
 	go func() {
 		b := make([]byte, 4096)
 		for {
-			n, err := r.IoReader().Read(b)
 			p.mu.Lock()
-			p.buf = append(p.buf, b[:n]...)
+			lim, have := p.limit, int64(len(p.buf))
+			p.mu.Unlock()
+			chunk := b
+			if lim >= 0 {
+				if have >= lim {
+					select {
+					case <-p.resume:
+						continue
+					case <-p.wait.Context().Done():
+						p.mu.Lock()
+						p.err, p.done = io.ErrClosedPipe, true
+						p.mu.Unlock()
+						return
+					}
+				}
+				if lim-have < int64(len(chunk)) {
+					chunk = chunk[:lim-have]
+				}
+			}
+			n, err := r.IoReader().Read(chunk)
+			p.mu.Lock()
+			p.buf = append(p.buf, chunk[:n]...)
 			if err != nil {
 				p.err, p.done = err, true
 				p.mu.Unlock()
@@ -91,6 +121,20 @@ func StartPump(r syncer.ChannelReader, lin int, x int64) *Pump {
 		}
 	}()
 	return p
+}
+
+// Paused: the consumer has a limit it will not read beyond until Resume.
+func (p *Pump) Paused() bool { p.mu.Lock(); defer p.mu.Unlock(); return p.limit >= 0 }
+
+// Resume lifts the limit.
+func (p *Pump) Resume() {
+	p.mu.Lock()
+	was := p.limit
+	p.limit = -1
+	p.mu.Unlock()
+	if was >= 0 {
+		close(p.resume)
+	}
 }
 
 func (p *Pump) Snapshot() (buf []byte, done bool, err error) {
@@ -159,7 +203,10 @@ func (p *Pump) Verify() string {
 	if int64(len(buf)) > p.RdbSize {
 		return fmt.Sprintf("snapshot reader delivered %d bytes, the snapshot has %d", len(buf), p.RdbSize)
 	}
-	want := SnapBytes(p.Lin, p.RdbOff, p.RdbSize)
+	if p.want == nil {
+		p.want = SnapBytes(p.Lin, p.RdbOff, p.RdbSize)
+	}
+	want := p.want
 	for i, b := range buf {
 		if w := want[i]; b != w {
 			return fmt.Sprintf("snapshot reader (snapshot at offset %d): byte %d is %#02x, the source sent %#02x", p.RdbOff, i, b, w)
